@@ -25,7 +25,7 @@ BINARY = ["add", "subtract", "multiply", "true_divide", "floor_divide", "remaind
 ALIGN = ["identical", "coincident", "nested", "interleaved", "constA", "constB", "independent"]
 REDS = ["sum", "any", "all", "max", "mean", "np.sum", "np.any", "np.all", "np.mean"]
 KINDS = ["unary", "rl", "rl_derived", "inplace", "pyscalar", "npscalar", "reduce", "concat", "hist"]
-FLOOR_TAGS = ["k:" + k for k in KINDS] + ["align:" + a for a in ALIGN] + ["side:L", "side:R", "kind:b", "kind:i", "kind:u", "kind:f", "noncommutative"] + ["red:" + r for r in REDS] + ["via:cmp-mixed", "k:loop", "k:chain", "step:binary", "step:slice", "step:mask", "step:concat", "step:astype", "step:scalar", "step:unary"]
+FLOOR_TAGS = ["operand:subclass-R", "operand:subclass-L"] + ["k:" + k for k in KINDS] + ["align:" + a for a in ALIGN] + ["side:L", "side:R", "kind:b", "kind:i", "kind:u", "kind:f", "noncommutative"] + ["red:" + r for r in REDS] + ["via:cmp-mixed", "k:loop", "k:chain", "step:binary", "step:slice", "step:mask", "step:concat", "step:astype", "step:scalar", "step:unary"]
 FLOOR_MONITORS = ["c16:compare", "c16:operands-unchanged", "c16:canonical", "inv:rla"]
 FP_STRICT = True       # a floating-point event inside the library that the dense computation does not have is a violation (shard.FpMonitor)
 N_RANDOM = {"quick": 36000, "thorough": 400000}
@@ -52,6 +52,15 @@ def snapshot(r):
 
 def snap_same(a, b):
     return all(same_array(x, y) for x, y in zip(a, b))
+
+
+_PLAIN_SUBS = {}
+
+
+def _plain_subclass(RLA):
+    if RLA not in _PLAIN_SUBS:
+        _PLAIN_SUBS[RLA] = type("Track", (RLA,), {})
+    return _PLAIN_SUBS[RLA]
 
 
 def run(case):
@@ -82,6 +91,15 @@ def run(case):
         uf = getattr(np, case["uf"])
         w = np.array(case["vals2"]).astype(case["dtype2"])
         rw = RLA.from_array(w.copy())
+        if case.get("subside"):
+            # one operand is an instance of a user subclass that overrides nothing (numpy then asks the subclass operand first, whichever side it is on)
+            Sub_ = _plain_subclass(RLA)
+            if case["subside"] == "R":
+                rw = Sub_.from_array(w.copy())
+            else:
+                r = Sub_.from_array(v.copy())
+                before = snapshot(r)
+            tags.append("operand:subclass-" + case["subside"])
         dw = np.asarray(rw.to_array())
         before2 = snapshot(rw)
         tags += ["align:" + case.get("align", "independent"), "uf:" + case["uf"]]
@@ -322,7 +340,10 @@ def gen_case(rng, tier, kind=None, dtype=None, align=None, uf=None):
         dtype2 = rng.choice(gen.DT_ALL)
         v = from_runs(A, run_values(rng, dtype, len(A), vclass), L, dtype)
         w = from_runs(B, run_values(rng, dtype2, len(B), vclass if np.dtype(dtype2).kind == "f" or vclass != "nonfinite" else "extreme"), L, dtype2)
-        return {"kind": "rl", "dtype": dtype, "vals": v.tolist(), "dtype2": dtype2, "vals2": w.tolist(), "uf": uf or rng.choice(BINARY), "align": align, "vclass": vclass}
+        c_ = {"kind": "rl", "dtype": dtype, "vals": v.tolist(), "dtype2": dtype2, "vals2": w.tolist(), "uf": uf or rng.choice(BINARY), "align": align, "vclass": vclass}
+        if rng.random() < 0.15:
+            c_["subside"] = rng.choice("LR")
+        return c_
     v, style = rl.gen_runs(rng, dtype, vclass, maxlen)
     c = {"kind": kind, "dtype": dtype, "vals": v.tolist(), "vclass": vclass}
     if kind == "unary":
